@@ -1174,10 +1174,17 @@ def check_layer_rule(repo: Repo, sx: SymExec, res: Result) -> None:
     if len({e.data["attr"] for e in sets}) != 1:
         raise AnalysisError(f"{m.fq}: the attribute that receives the architecture was not found")
     arch = ("attr", SELF, sets[0].data["attr"])
+    # truth value of the architecture attribute: an object of a class without __bool__ / __len__ is always truthy, so `if self._a:`
+    # is `if self._a is not None:`; once the class (or a subclass) defines one of them an architecture can be falsy
+    la = public_class(repo, "LayeredArchitecture")
+    sized = [f"{c.name}.{n}" for c in [*repo.mro(la), *repo.subclasses(la)] for n in ("__bool__", "__len__") if n in c.methods]
+    falsy_note = f"; {sized[0]} makes an architecture without layers falsy, so a truth-value test of `{show(arch)}` is not a test for None" if sized else ""
+    enc = Enc(objects=set() if sized else {arch})
+    F.arch_objects = enc.objects
     arch_none = enc.truth(("cmp", "Is", arch, NONE_T))
     raised = f_or([enc.pc(e.pc) for e in config_raises(bo)])
     ok = equivalent(raised, f_not(arch_none)) and all(implies(enc.pc(e.pc), arch_none) for e in sets)
-    verdict(res, bo, "C16.R3", K(m, "architecture set once"), ok, "a second based_on raises a configuration error and leaves the architecture alone" if ok else f"based_on can replace the architecture of a rule (configuration error raised iff `{_show_f(raised)}`)", f"{m.relpath}:{m.node.lineno}", kind="decision-table")
+    verdict(res, bo, "C16.R3", K(m, "architecture set once"), ok, "a second based_on raises a configuration error and leaves the architecture alone" if ok else f"based_on can replace the architecture of a rule (configuration error raised iff `{_show_f(raised)}`){falsy_note}", f"{m.relpath}:{m.node.lineno}", kind="decision-table")
     # ---- layers_that: architecture first; the attribute that receives the module rule
     lt = F.run("layers_that")
     m = lt.fi
@@ -1187,7 +1194,7 @@ def check_layer_rule(repo: Repo, sx: SymExec, res: Result) -> None:
     rule = ("attr", SELF, rsets[0].data["attr"])
     raised = f_or([enc.pc(e.pc) for e in config_raises(lt)])
     ok = equivalent(raised, arch_none) and all(implies(enc.pc(e.pc), f_not(arch_none)) for e in rsets)
-    verdict(res, lt, "C16.R3", K(m, "architecture first"), ok, "layers_that requires an architecture" if ok else f"layers_that no longer requires an architecture (configuration error raised iff `{_show_f(raised)}`)", f"{m.relpath}:{m.node.lineno}", kind="decision-table")
+    verdict(res, lt, "C16.R3", K(m, "architecture first"), ok, "layers_that requires an architecture" if ok else f"layers_that no longer requires an architecture (configuration error raised iff `{_show_f(raised)}`){falsy_note}", f"{m.relpath}:{m.node.lineno}", kind="decision-table")
     # ---- the side flag of Rule: the attribute Rule.modules_that() sets to True
     mt = sx.run(public_method(repo, rule_cls, "modules_that"))
     flags = {e.data["attr"] for e in mt.of("setattr") if e.data["obj"] == SELF and e.data["value"] == ("const", True)}
@@ -1308,13 +1315,16 @@ def check_are_named(repo: Repo, F: RuleFacts, res: Result, arch: Term, rule: Ter
     r = F.run("are_named")
     m = r.fi
     p = ("param", m.param_names[1])
-    enc = Enc(None, {p})
+    enc = Enc(None, {p}, getattr(F, "arch_objects", set()))
     side = ("attr", rule, flag)
     S = enc.truth(side)
     L = enc.truth(("isinstance", p, ("list",)))
     none = enc.truth(("cmp", "Is", rule, NONE_T))
     arch_none = enc.truth(("cmp", "Is", arch, NONE_T))
-    started = f_and([f_not(none), f_not(arch_none)])
+    # once layers_that() has run the side flag is True or False, never None (obligations `side flag: ..` of check_side_flag: True after
+    # layers_that, untouched by the behaviour words, a falsy constant other than None after the access words, unchanged by are_named):
+    # configuration errors the wrapped rule keeps for "neither subject nor object announced" are unreachable from are_named
+    started = f_and([f_not(none), f_not(arch_none), f_not(enc.truth(("cmp", "Is", side, NONE_T)))])
     # effects on the wrapped rule: writes / mutating calls on objects reachable from it
     effects = [e for e in r.events if (e.kind == "setattr" and (mentions(e.data["obj"], rule) or (e.data["obj"] == SELF and ("attr", SELF, e.data["attr"]) == rule))) or (e.kind == "call" and e.data["method"] in MUTATORS and e.data["recv"] is not None and mentions(e.data["recv"], rule))]
     subj: list[Term] = []
